@@ -3,7 +3,7 @@ package main
 func init() {
 	addMutants(
 		Mutant{Name: "c14-prepare-error-arm-keeps-lock", Property: "C14", Rule: "C14.locks", Edits: []Edit{{"prepare_stmt.go",
-			"\t\tdb.Mux.Lock()\n\t\tdelete(db.Stmts, query)\n\t\tdb.Mux.Unlock()\n\t\treturn Stmt{}, err", "\t\tdb.Mux.Lock()\n\t\tdelete(db.Stmts, query)\n\t\treturn Stmt{}, err"}}},
+			"\t\t\tdelete(db.Stmts, query)\n\t\t}\n\t\tdb.Mux.Unlock()\n\t\treturn Stmt{}, err", "\t\t\tdelete(db.Stmts, query)\n\t\t}\n\t\treturn Stmt{}, err"}}},
 		Mutant{Name: "c14-prepare-double-unlock", Property: "C14", Rule: "C14.locks", Edits: []Edit{{"prepare_stmt.go",
 			"\tif db.Stmts == nil {\n\t\tdb.Mux.Unlock()\n\t\treturn Stmt{}, ErrInvalidDB\n\t}", "\tif db.Stmts == nil {\n\t\tdb.Mux.Unlock()\n\t\tdb.Mux.Unlock()\n\t\treturn Stmt{}, ErrInvalidDB\n\t}"}}},
 		Mutant{Name: "c14-wait-for-prepared-under-read-lock", Property: "C14", Rule: "C14.no-block", Edits: []Edit{{"prepare_stmt.go",
@@ -14,23 +14,23 @@ func init() {
 		Mutant{Name: "c14-session-unlocked-snapshot-again", Property: "C14", Rule: "C14.map", Edits: []Edit{{"gorm.go",
 			"\t\t\tpreparedStmt.Mux.RLock()\n\t\t\tstmts := preparedStmt.Stmts\n\t\t\tpreparedStmt.Mux.RUnlock()\n", "\t\t\tstmts := preparedStmt.Stmts\n"}}, Note: "reverts fix c335837"},
 		Mutant{Name: "c14-evict-without-lock", Property: "C14", Rule: "C14.map", Edits: []Edit{{"prepare_stmt.go",
-			"\t\t\tdb.Mux.Lock()\n\t\t\tdefer db.Mux.Unlock()\n\t\t\tgo stmt.Close()\n\t\t\tdelete(db.Stmts, query)", "\t\t\tgo stmt.Close()\n\t\t\tdelete(db.Stmts, query)"}}},
+			"\t\t\tdb.Mux.Lock()\n\t\t\tdefer db.Mux.Unlock()\n\t\t\tgo stmt.Close()\n", "\t\t\tgo stmt.Close()\n"}}},
 		Mutant{Name: "c14-reset-under-read-lock", Property: "C14", Rule: "C14.map", Edits: []Edit{{"prepare_stmt.go",
 			"func (sdb *PreparedStmtDB) Reset() {\n\tsdb.Mux.Lock()\n\tdefer sdb.Mux.Unlock()", "func (sdb *PreparedStmtDB) Reset() {\n\tsdb.Mux.RLock()\n\tdefer sdb.Mux.RUnlock()"}}},
 		Mutant{Name: "c14-no-deferred-close-of-prepared", Property: "C14", Rule: "C14.inprogress", Edits: []Edit{{"prepare_stmt.go", "\tdefer close(cacheStmt.prepared)\n", ""},
 			{"prepare_stmt.go", "\tdb.Mux.Lock()\n\tcacheStmt.Stmt = stmt\n\tdb.Mux.Unlock()\n", "\tdb.Mux.Lock()\n\tcacheStmt.Stmt = stmt\n\tdb.Mux.Unlock()\n\tclose(cacheStmt.prepared)\n"}},
 			Note: "closes only on the success path: waiters of a failed prepare hang"},
 		Mutant{Name: "c14-failed-prepare-stays-cached", Property: "C14", Rule: "C14.inprogress", Edits: []Edit{{"prepare_stmt.go",
-			"\t\tcacheStmt.prepareErr = err\n\t\tdb.Mux.Lock()\n\t\tdelete(db.Stmts, query)\n\t\tdb.Mux.Unlock()\n", "\t\tcacheStmt.prepareErr = err\n"}}},
+			"\t\tif cur, ok := db.Stmts[query]; ok && cur == &cacheStmt {\n\t\t\tdelete(db.Stmts, query)\n\t\t}\n", ""}}},
 		Mutant{Name: "c14-failed-prepare-error-not-recorded", Property: "C14", Rule: "C14.inprogress", Edits: []Edit{{"prepare_stmt.go", "\t\tcacheStmt.prepareErr = err\n", ""}}},
 		Mutant{Name: "c14-insert-into-closed-cache", Property: "C14", Rule: "C14.inprogress", Edits: []Edit{{"prepare_stmt.go",
 			"\tif db.Stmts == nil {\n\t\tdb.Mux.Unlock()\n\t\treturn Stmt{}, ErrInvalidDB\n\t}\n", ""}}},
 		Mutant{Name: "c14-cache-hit-ignores-prepare-error", Property: "C14", Rule: "C14.inprogress", Edits: []Edit{{"prepare_stmt.go",
 			"\t\tdb.Mux.Unlock()\n\t\t// wait for other goroutines prepared\n\t\t<-stmt.prepared\n\t\tif stmt.prepareErr != nil {\n\t\t\treturn Stmt{}, stmt.prepareErr\n\t\t}\n", "\t\tdb.Mux.Unlock()\n\t\t// wait for other goroutines prepared\n\t\t<-stmt.prepared\n"}}},
 		Mutant{Name: "c14-badconn-arm-does-not-close", Property: "C14", Rule: "C14.evict", Edits: []Edit{{"prepare_stmt.go",
-			"\t\t\tdefer db.Mux.Unlock()\n\n\t\t\tgo stmt.Close()\n\t\t\tdelete(db.Stmts, query)", "\t\t\tdefer db.Mux.Unlock()\n\n\t\t\tdelete(db.Stmts, query)"}}},
+			"\t\t\tdefer db.Mux.Unlock()\n\n\t\t\tgo stmt.Close()\n", "\t\t\tdefer db.Mux.Unlock()\n\n"}}},
 		Mutant{Name: "c14-tx-badconn-arm-keeps-entry", Property: "C14", Rule: "C14.evict", Edits: []Edit{{"prepare_stmt.go",
-			"\t\trows, err = tx.Tx.StmtContext(ctx, stmt.Stmt).QueryContext(ctx, args...)\n\t\tif errors.Is(err, driver.ErrBadConn) {\n\t\t\ttx.PreparedStmtDB.Mux.Lock()\n\t\t\tdefer tx.PreparedStmtDB.Mux.Unlock()\n\n\t\t\tgo stmt.Close()\n\t\t\tdelete(tx.PreparedStmtDB.Stmts, query)\n\t\t}",
+			"\t\trows, err = tx.Tx.StmtContext(ctx, stmt.Stmt).QueryContext(ctx, args...)\n\t\tif errors.Is(err, driver.ErrBadConn) {\n\t\t\ttx.PreparedStmtDB.Mux.Lock()\n\t\t\tdefer tx.PreparedStmtDB.Mux.Unlock()\n\n\t\t\tgo stmt.Close()\n\t\t\t// evict only the statement that failed, the entry may have been replaced meanwhile\n\t\t\tif cur, ok := tx.PreparedStmtDB.Stmts[query]; ok && cur.Stmt == stmt.Stmt {\n\t\t\t\tdelete(tx.PreparedStmtDB.Stmts, query)\n\t\t\t}\n\t\t}",
 			"\t\trows, err = tx.Tx.StmtContext(ctx, stmt.Stmt).QueryContext(ctx, args...)\n\t\tif errors.Is(err, driver.ErrBadConn) {\n\t\t\tgo stmt.Close()\n\t\t}"}}},
 		Mutant{Name: "c14-close-keeps-map", Property: "C14", Rule: "C14.evict", Edits: []Edit{{"prepare_stmt.go", "\tdb.Stmts = nil\n", ""}}},
 		Mutant{Name: "c14-reset-closes-before-prepared", Property: "C14", Rule: "C14.evict", Edits: []Edit{{"prepare_stmt.go",
